@@ -240,13 +240,16 @@ PROPS = {
                   "Loc-RIB (ListPath GLOBAL) holds exactly the usable ones (own-AS / ORIGINATOR_ID loop checks) plus the local "
                   "routes, one per (source, path-id), best flag on the first, nothing of an ended session or deleted peer; "
                   "received/accepted counters agree."),
-        "note": ("Hash-colliding destinations need a hash hook (not added yet) and are not reached; the best-path event stream "
-                 "is not replayed yet."),
+        "note": ("A second unit (TestVerifC02_table) runs announce / replace / withdraw / peer-down sequences directly against a "
+                 "TableManager whose destination hash keys are masked to 1-3 bits through the verif hook (12 nested IPv4/IPv6 prefixes "
+                 "share 2-8 keys) and compares GetPathList, GetBestPathList, GetDestination, the table counters and exact / longer / "
+                 "shorter lookups with a map model. The best-path event stream is not replayed."),
         "technique": "model-based property testing (rapid) of operation histories in virtual time against a map model",
         "rule": ("same histories and rule as C01; distinct by case hash"),
         "assumptions": [],
         "units": [
             {"pkg": S, "test": "TestVerifC02", "quick": (16, 150), "thorough": (16, 8000), "timeout_q": 1500},
+            {"pkg": T, "test": "TestVerifC02_table", "quick": (16, 150), "thorough": (16, 20000), "timeout_q": 1500},
         ],
     },
     "C06": {
